@@ -178,6 +178,18 @@ def joinSep (sep : UInt8) : List Bytes → Bytes
   | [x] => x
   | x :: y :: r => x ++ sep :: joinSep sep (y :: r)
 
+/-- `sort.Slice(xs, less)` as the stable insertion sort. Go's pdqsort IS an insertion
+sort (an element moves left while it is strictly less than its predecessor) for up to
+12 elements; beyond that it may permute elements that compare equal, which no theorem
+here depends on and the harness stays clear of. Structural, so examples evaluate. -/
+def insertBy {α : Type} (less : α → α → Bool) (x : α) : List α → List α
+  | [] => [x]
+  | y :: ys => if less y x then y :: insertBy less x ys else x :: y :: ys
+
+def stableSort {α : Type} (less : α → α → Bool) : List α → List α
+  | [] => []
+  | x :: xs => insertBy less x (stableSort less xs)
+
 def npmPrefix : Bytes := [110, 112, 109, 58]                                   -- "npm:"
 def nodeModulesPrefix : Bytes := [110, 111, 100, 101, 95, 109, 111, 100, 117, 108, 101, 115, 47]   -- "node_modules/"
 def nodeModulesSep : Bytes := 47 :: nodeModulesPrefix                          -- "/node_modules/"
@@ -223,10 +235,8 @@ def depLess (a b : ReqVer) : Bool :=
     let lb := toLower nb
     if la != lb then bytesLt la lb else bytesLt nb na
 
-/-- `SortDependencies` for npm. Go's `sort.Slice` is modelled as the stable sort
-(pdqsort is an insertion sort, hence stable, up to 12 elements; elements that
-compare equal are swapped only beyond that, and no theorem depends on their order). -/
-def sortDeps (l : List ReqVer) : List ReqVer := l.mergeSort fun a b => !depLess b a
+/-- `SortDependencies` for npm (`sort.Slice`, see `stableSort`). -/
+def sortDeps (l : List ReqVer) : List ReqVer := stableSort depLess l
 
 def devType : DepType := { dev := true }
 def optType : DepType := { opt := true }
@@ -296,9 +306,9 @@ def processBundles (root : VersionKey) : AllDeps → List Bundle → Option AllD
     | none => none
     | some all' => processBundles root all' bs
 
-/-- `sort.Slice(reqs.Bundled, len(path_i) < len(path_j))`, as the stable sort. -/
+/-- `sort.Slice(reqs.Bundled, len(path_i) < len(path_j))` (see `stableSort`). -/
 def sortBundled (bs : List Bundle) : List Bundle :=
-  bs.mergeSort fun a b => a.path.length ≤ b.path.length
+  stableSort (fun a b => decide (a.path.length < b.path.length)) bs
 
 /-- the pure part of `npmRequirements`: `allDeps` after the loop, or `none` on the
 missing-parent error (nothing is stored in that case). -/
